@@ -1,7 +1,7 @@
 (* C12 driver: runs the extracted flush-protocol model.
    stdin, one case per line (blank separated):
      <cl 0|1> <fault k | -1> <nfrag> then per fragment:
-        <oldlen | -1 (absent)> <perm> <npre> <len>.. <npost> <len>.. <nextra> <len>..
+        <oldlen | -1 (absent)> <perm> <npre> <len>.. <npost> <len>.. <nextra> <len | -1 = fchmod>..
    fragment i uses path 2i (format file) and 2i+1 (temporary file), descriptor 100.
    stdout per case:
      T <tok> <tok> ...          the trace (one token per call)
@@ -67,7 +67,10 @@ let () =
             |> List.map (fun (c, l) -> mk_content (tagbase + 16 * i + c) l) in
           let pre = chunks 1 in
           let post = chunks 7 in
-          let extra = chunks 11 in
+          let extra =
+            let n = next () in
+            List.init n (fun c -> let l = next () in (c, l))
+            |> List.map (fun (c, l) -> if l < 0 then None else Some (mk_content (11 + 16 * i + c) l)) in
           let f = { fpath = n_of_int (2 * i); ftmp = n_of_int (2 * i + 1); fpre = pre; fpost = post;
                     fextra = extra; fperm = n_of_int perm } in
           frs := !frs @ [f];
